@@ -126,3 +126,58 @@ def replay_h_convert_intlike(v, ik, wide):
         return False, "logical value preserved"
     finally:
         shutil.rmtree(d, ignore_errors=True)
+
+
+# ------------------------------------------------------------------ DECIMAL stored as big-endian two's complement bytes ---
+DEC_VALUES = [0, 1, -1, 127, -128, 255, -256, 32767, -32768, 8388607, -8388608, 2147483647, -2147483648,
+              549755813887, -549755813888, 9223372036854775807, -9223372036854775808, 123456789, -123456789]
+
+
+def _fits(v, nb):
+    return -(1 << (8 * nb - 1)) <= v < (1 << (8 * nb - 1))
+
+
+def h_convert_decimal_bytes(iv: int, nb: int, scale: int) -> bool:
+    """
+    pre: 0 <= iv < 19 and 1 <= nb <= 9 and 0 <= scale <= 2
+    post: __return__
+    """
+    # FIXED_LEN_BYTE_ARRAY(nb) / BYTE_ARRAY DECIMAL: the unscaled value is the bytes read as a big-endian two's
+    # complement integer (negative values have their high bits set).  Values and widths are chosen by index (the real
+    # numpy runs on concrete bytes)
+    iv, nb, scale = _pick(iv, 0, 18), _pick(nb, 1, 9), _pick(scale, 0, 2)
+    v = DEC_VALUES[iv]
+    if not _fits(v, nb):
+        return True
+    raw = v.to_bytes(nb, "big", signed=True)
+    se = parquet_thrift.SchemaElement(name="x", type=parquet_thrift.Type.FIXED_LEN_BYTE_ARRAY, type_length=nb,
+                                      converted_type=CT.DECIMAL, scale=scale, precision=19)
+    # every value is concrete here: the real function runs untraced (CrossHair's replacement of int.from_bytes does
+    # not take the memoryview of a fixed-width bytes array)
+    try:
+        from crosshair.tracers import NoTracing
+    except ImportError:
+        NoTracing = None
+    if NoTracing is None:
+        out = ct.convert(np.array([raw, raw], dtype="S%d" % nb), se)
+    else:
+        with NoTracing():
+            out = ct.convert(np.array([raw, raw], dtype="S%d" % nb), se)
+            got = [float(out[0]), float(out[1])] if len(out) == 2 else None
+        want = v * 10 ** -scale
+        return got == [float(want), float(want)]
+    want = v * 10 ** -scale
+    return len(out) == 2 and float(out[0]) == float(want) and float(out[1]) == float(want)
+
+
+def replay_h_convert_decimal_bytes(iv, nb, scale):
+    v = DEC_VALUES[iv]
+    raw = v.to_bytes(nb, "big", signed=True)
+    se = parquet_thrift.SchemaElement(name="x", type=parquet_thrift.Type.FIXED_LEN_BYTE_ARRAY, type_length=nb,
+                                      converted_type=CT.DECIMAL, scale=scale, precision=19)
+    out = ct.convert(np.array([raw, raw], dtype="S%d" % nb), se)
+    want = v * 10 ** -scale
+    if float(out[0]) != float(want):
+        return True, "DECIMAL(scale %d) stored in %d bytes %s decodes to %r, the value is %r" % (
+            scale, nb, raw.hex(), out[0], want)
+    return False, "decoded"
